@@ -205,6 +205,8 @@ class PostgreSQLQueryBuilder(QueryBuilder):
         else:
             querystring = super().get_sql(ctx)
         if self._returns:
-            returning_ctx = ctx.copy(with_namespace=self._update_table and self.from_)
+            returning_ctx = ctx.copy(
+                with_namespace=ctx.with_namespace or (self._update_table and self.from_)
+            )
             querystring += self._returning_sql(returning_ctx)
         return querystring
